@@ -4,12 +4,12 @@ import (
 	"bytes"
 	"encoding/json"
 	"fmt"
-	"io"
 	"os"
 	"os/exec"
 	"regexp"
 	"strconv"
 	"strings"
+	"sync/atomic"
 	"testing"
 	"time"
 	"unicode/utf8"
@@ -62,43 +62,114 @@ func genDisplayText(t *rapid.T, label string, minCols, maxCols int) string {
 	return strings.Join(parts, " ")
 }
 
-// runOnPty runs ergo with stdout on a pseudo terminal of the given width.
-func runOnPty(root string, cols int, args ...string) (string, int, error) {
+// ptyEnd is written to the slave side by the harness itself after the child has exited.
+// A pseudo terminal is a FIFO, so once the reader has seen these bytes it has seen
+// everything the child wrote before them: the capture is complete by construction and
+// does not rest on what read() on the master does when the last slave descriptor goes
+// away, nor on a timer. The record separators never occur in generated text.
+const ptyEnd = "\x1e<<verif-pty-end>>\x1e"
+
+// ptyWait bounds the wait for the end marker. Reaching it is infrastructure trouble (the
+// rendering is labelled and not judged), never a verdict about ergo.
+var ptyWait = 120 * time.Second
+
+// ptyRes is one rendering on a pseudo terminal.
+type ptyRes struct {
+	Out    string
+	Stderr string
+	Code   int
+	Wall   time.Duration
+}
+
+// runOnPty runs ergo with stdout on a pseudo terminal of the given width. An error means
+// that the terminal could not be set up or that its output could not be captured whole.
+func runOnPty(root string, cols int, args ...string) (ptyRes, error) {
+	atomic.AddInt64(&execCount, 1)
+	start := time.Now()
 	cmd := exec.Command(ErgoBin(), args...)
 	cmd.Dir = root
 	cmd.Env = append(baseEnv()[:0:0], "PATH=/usr/bin:/bin", "HOME=/nonexistent", "LANG=C.UTF-8", "LC_ALL=C.UTF-8", "TERM=xterm")
 	ptmx, tty, err := pty.Open()
 	if err != nil {
-		return "", 0, err
+		return ptyRes{}, err
 	}
 	defer ptmx.Close()
+	defer tty.Close() // the harness keeps the slave side open until the end marker is through
 	if err := pty.Setsize(ptmx, &pty.Winsize{Rows: 50, Cols: uint16(cols)}); err != nil {
-		tty.Close()
-		return "", 0, err
+		return ptyRes{}, err
 	}
 	var stderr bytes.Buffer
 	cmd.Stdout = tty
 	cmd.Stderr = &stderr
+	type chunk struct {
+		b   []byte
+		err error
+	}
+	chunks := make(chan chunk, 64)
+	stop := make(chan struct{})
+	defer close(stop)
+	go func() {
+		for {
+			buf := make([]byte, 32<<10)
+			n, err := ptmx.Read(buf)
+			select {
+			case chunks <- chunk{buf[:n], err}:
+			case <-stop:
+				return
+			}
+			if err != nil {
+				return
+			}
+		}
+	}()
 	if err := cmd.Start(); err != nil {
-		tty.Close()
-		return "", 0, err
+		return ptyRes{}, err
 	}
-	tty.Close()
-	var out bytes.Buffer
-	done := make(chan struct{})
-	go func() { io.Copy(&out, ptmx); close(done) }()
-	err = cmd.Wait()
-	select {
-	case <-done:
-	case <-time.After(5 * time.Second):
+	// read while the child runs (a terminal holds only a few KB), until the marker is seen
+	var out []byte
+	waitErr := make(chan error, 1)
+	go func() { waitErr <- cmd.Wait() }()
+	var exitErr error
+	exited := false
+	timeout := time.NewTimer(ptyWait)
+	defer timeout.Stop()
+	for {
+		if i := bytes.Index(out, []byte(ptyEnd)); i >= 0 {
+			out = out[:i]
+			break
+		}
+		select {
+		case c := <-chunks:
+			out = append(out, c.b...)
+			if c.err != nil && !bytes.Contains(out, []byte(ptyEnd)) {
+				if !exited {
+					cmd.Process.Kill()
+					<-waitErr
+				}
+				return ptyRes{}, fmt.Errorf("pty capture ended before the end marker: %v", c.err)
+			}
+		case exitErr = <-waitErr:
+			exited = true
+			if _, err := tty.Write([]byte(ptyEnd)); err != nil {
+				return ptyRes{}, fmt.Errorf("pty end marker could not be written: %v", err)
+			}
+		case <-timeout.C:
+			if !exited {
+				cmd.Process.Kill()
+				<-waitErr
+			}
+			return ptyRes{}, fmt.Errorf("pty capture: no end marker within %v", ptyWait)
+		}
 	}
-	code := 0
-	if ee, ok := err.(*exec.ExitError); ok {
-		code = ee.ExitCode()
-	} else if err != nil {
-		return "", 0, err
+	res := ptyRes{Stderr: stderr.String(), Wall: time.Since(start)}
+	if ee, ok := exitErr.(*exec.ExitError); ok {
+		res.Code = ee.ExitCode()
+	} else if exitErr != nil {
+		return ptyRes{}, exitErr
 	}
-	return strings.ReplaceAll(out.String(), "\r\n", "\n"), code, nil
+	// the terminal's output processing turns \n into \r\n; nothing else is touched
+	res.Out = strings.ReplaceAll(string(out), "\r\n", "\n")
+	return res, nil
 }
 
 type listRow struct {
@@ -157,22 +228,49 @@ type humanView struct {
 	Width int      `json:"width"` // 0 = pipe
 }
 
-// checkHumanList compares one human rendering with the JSON truth.
-func checkHumanList(root string, snap *Snapshot, v humanView, epic string) (viol []string, notes []string) {
+// rendering is what one human list invocation produced, kept for the replay file.
+type rendering struct {
+	View   string `json:"view"`
+	Width  int    `json:"width"`
+	Code   int    `json:"exit_code"`
+	Stdout string `json:"stdout"`
+	Stderr string `json:"stderr,omitempty"`
+	WallMS int64  `json:"wall_ms"`
+}
+
+// renderHuman runs one human list view, on a pipe (width 0) or on a pseudo terminal.
+func renderHuman(root string, v humanView) (rendering, error) {
+	rd := rendering{View: v.Name, Width: v.Width}
+	if v.Width > 0 {
+		r, err := runOnPty(root, v.Width, v.Args...)
+		if err != nil {
+			return rd, err
+		}
+		rd.Stdout, rd.Stderr, rd.Code, rd.WallMS = r.Out, r.Stderr, r.Code, r.Wall.Milliseconds()
+		return rd, nil
+	}
+	r := Run(Cmd{Args: v.Args, Dir: root})
+	if r.TimedOut || r.Code == -1 {
+		return rd, fmt.Errorf("list could not be run to completion: %s", clip(r.Stderr, 200))
+	}
+	rd.Stdout, rd.Stderr, rd.Code, rd.WallMS = r.Stdout, r.Stderr, r.Code, r.Wall.Milliseconds()
+	return rd, nil
+}
+
+// checkHumanList renders one view and compares it with the JSON truth.
+func checkHumanList(root string, snap *Snapshot, v humanView, epic string) (viol []string, notes []string, rd rendering) {
+	rd, err := renderHuman(root, v)
+	if err != nil {
+		return nil, []string{"capture-failed"}, rd
+	}
+	viol, notes = judgeHumanList(rd.Stdout, rd.Code, snap, v, epic)
+	return
+}
+
+// judgeHumanList compares one human rendering with the JSON truth.
+func judgeHumanList(out string, code int, snap *Snapshot, v humanView, epic string) (viol []string, notes []string) {
 	bad := func(f string, a ...any) {
 		viol = append(viol, fmt.Sprintf("[%s width=%d] ", v.Name, v.Width)+fmt.Sprintf(f, a...))
-	}
-	var out string
-	var code int
-	if v.Width > 0 {
-		var err error
-		out, code, err = runOnPty(root, v.Width, v.Args...)
-		if err != nil {
-			return nil, []string{"pty-unavailable"}
-		}
-	} else {
-		r := Run(Cmd{Args: v.Args, Dir: root})
-		out, code = r.Stdout, r.Code
 	}
 	if code != 0 {
 		bad("list exited %d", code)
@@ -428,6 +526,9 @@ type HumanCase struct {
 	Views      []humanView `json:"views"`
 	EpicIdx    int         `json:"epic_idx"`
 	Violations []Violation `json:"violations,omitempty"`
+	// Renderings holds what the judged invocations printed (the first one and the
+	// confirming ones); it is documentation for the reader, replay does not use it.
+	Renderings []rendering `json:"renderings,omitempty"`
 }
 
 // buildHumanWorld replays build commands; ids are positional: "$k" in an argument or in
@@ -458,13 +559,32 @@ func buildHumanWorld(root string, build []Cmd) []string {
 	return ids
 }
 
-func runHumanCase(hc HumanCase) (viol []string, notes []string) {
+// confirmations is how often a view that looked wrong is rendered and judged again.
+const confirmations = 3
+
+// transient is a look-wrong rendering that did not show again on the unchanged store.
+type transient struct {
+	Violations []string    `json:"violations"`
+	First      rendering   `json:"first"`
+	Again      []rendering `json:"again"`
+}
+
+// runHumanCase builds the world, renders and judges every view. Nothing writes to the
+// store after the build, and `list` is a function of (store, flags, width), so a
+// genuine violation shows again when the same view is rendered again. A view that looks
+// wrong is therefore rendered up to three more times, each against a freshly taken JSON
+// snapshot: the violation is reported when at least one of these shows a violation too
+// (so a violation that comes and goes is still reported), with all renderings kept in the
+// replay file. One that never shows again cannot be told from a glitch of the observation
+// channel and has no replay that fails; it is counted (label render.unconfirmed-transient,
+// examples in the evidence) and not reported.
+func runHumanCase(hc HumanCase) (viol []string, notes []string, rds []rendering, unconfirmed []transient) {
 	root := NewStore("c19")
 	defer RemoveAll(root)
 	ids := buildHumanWorld(root, hc.Build)
 	snap, err := TakeSnapshot(root)
 	if err != nil {
-		return nil, []string{"snapshot-failed"}
+		return nil, []string{"snapshot-failed"}, nil, nil
 	}
 	epic := ""
 	if hc.EpicIdx >= 0 && hc.EpicIdx < len(ids) {
@@ -482,12 +602,29 @@ func runHumanCase(hc HumanCase) (viol []string, notes []string) {
 			e = epic
 			vv.Args = append(append([]string{}, v.Args...), "--epic", epic)
 		}
-		vi, no := checkHumanList(root, snap, vv, e)
-		viol = append(viol, vi...)
+		vi, no, rd := checkHumanList(root, snap, vv, e)
 		notes = append(notes, no...)
-		if len(viol) > 0 {
-			return
+		if len(vi) == 0 {
+			continue
 		}
+		tr := transient{Violations: vi, First: rd}
+		confirmed := false
+		for k := 0; k < confirmations && !confirmed; k++ {
+			snap2, err := TakeSnapshot(root)
+			if err != nil {
+				notes = append(notes, "snapshot-failed")
+				continue
+			}
+			vi2, _, rd2 := checkHumanList(root, snap2, vv, e)
+			tr.Again = append(tr.Again, rd2)
+			confirmed = len(vi2) > 0
+		}
+		if !confirmed {
+			notes = append(notes, "unconfirmed-transient")
+			unconfirmed = append(unconfirmed, tr)
+			continue
+		}
+		return vi, notes, append([]rendering{tr.First}, tr.Again...), unconfirmed
 	}
 	return
 }
@@ -502,12 +639,12 @@ func TestC19(t *testing.T) {
 		if err := json.Unmarshal(b, &hc); err != nil {
 			t.Fatal(err)
 		}
-		if v, _ := runHumanCase(hc); len(v) > 0 {
+		if v, _, _, _ := runHumanCase(hc); len(v) > 0 {
 			t.Fatalf("REPLAY-VIOLATION C19: %v", v)
 		}
 		return
 	}
-	stats := NewStats("C19", "HUMAN/list-rendering", "generated worlds (0-3 epics, 1-9 tasks; titles and claimant names of 3-150 display columns from width-unambiguous classes: ASCII, Latin letters, CJK / kana / hangul / full-width = 2 columns, combining marks = 0; all six states; task and epic dependencies so that blocker annotations appear) rendered by list with flag sets {default, --all, --ready, --epic X, --epic X --ready, --epics, --quiet} on a pipe and on pseudo terminals of width 20-250; oracle: rows parsed from the output (ANSI stripped, a row ends in two spaces + a live id) vs list --json: --all shows every live item once, default every active task once, --ready exactly the ready tasks, children carry tree glyphs under their own epic and root rows none, summary counts equal the per-bucket task counts of the view's scope, empty views print their sentence, every row is valid UTF-8, at most the terminal width by the harness's own width table, id ending in column width-2; non-trivial = a row was truncated or carries an annotation or wide / combining text; distinct = distinct (world, views)")
+	stats := NewStats("C19", "HUMAN/list-rendering", "generated worlds (0-3 epics, 1-9 tasks; titles and claimant names of 3-150 display columns from width-unambiguous classes: ASCII, Latin letters, CJK / kana / hangul / full-width = 2 columns, combining marks = 0; all six states; task and epic dependencies so that blocker annotations appear) rendered by list with flag sets {default, --all, --ready, --epic X, --epic X --ready, --epics, --quiet} on a pipe and on pseudo terminals of width 20-250; oracle: rows parsed from the output (ANSI stripped, a row ends in two spaces + a live id) vs list --json: --all shows every live item once, default every active task once, --ready exactly the ready tasks, children carry tree glyphs under their own epic and root rows none, summary counts equal the per-bucket task counts of the view's scope, empty views print their sentence, every row is valid UTF-8, at most the terminal width by the harness's own width table, id ending in column width-2; terminal output is captured up to an end marker that the harness writes to the slave side after the child has exited (complete by construction), and a view that looks wrong is rendered up to three more times on the unchanged store and reported when at least one of them looks wrong too; non-trivial = a row was truncated or carries an annotation or wide / combining text; distinct = distinct (world, views)")
 	defer stats.Flush()
 	deadline := budgetDeadline()
 	replayPath := ReplayOutPath("C19")
@@ -603,13 +740,17 @@ func TestC19(t *testing.T) {
 			}
 			hc.Views = append(hc.Views, v)
 		}
-		viol, notes := runHumanCase(hc)
+		viol, notes, rds, unconfirmed := runHumanCase(hc)
+		for _, tr := range unconfirmed {
+			stats.Example("unconfirmed_transients", tr, 3)
+		}
 		if len(viol) > 0 {
 			var vs []Violation
 			for _, m := range viol {
 				vs = append(vs, Violation{"C19", m})
 			}
 			hc.Violations = vs
+			hc.Renderings = rds
 			WriteReplay(replayPath, hc)
 			rt.Fatalf("C19 violated: %v", viol)
 		}
